@@ -191,7 +191,7 @@ def cmd_run(argv):
     it = iter(todo)
 
     def worker(k):
-        wt = f"/tmp/mutw_{k}"
+        wt = f"/tmp/{os.environ.get('MUTW_BASE', 'mutw')}_{k}"
         sh(f"git -C {REPO} worktree remove --force {wt}; rm -rf {wt}")
         r = sh(f"git -C {REPO} worktree add --detach {wt} HEAD")
         if r.returncode: print(r.stdout); return
